@@ -78,11 +78,11 @@ def _vectors(stdout):
     return list(groups.values())
 
 
-def _drive(ctx, vecs, tag, extra=()):
+def _drive(ctx, vecs, tag, extra=(), seed=None):
     vfile = os.path.join(ctx.workdir, "%s-vectors.ndjson" % tag)
     tfile = os.path.join(ctx.workdir, "%s-trace.ndjson" % tag)
     vlib.write_ndjson(vfile, vecs)
-    r = vlib.run_harness("vconnect", ["vectors", "--schedules", vfile, "--trace", tfile, "--seed", ctx.seed] + list(extra),
+    r = vlib.run_harness("vconnect", ["vectors", "--schedules", vfile, "--trace", tfile, "--seed", ctx.seed if seed is None else seed] + list(extra),
                          timeout=1200)
     try:
         summ = json.loads(r.stdout.strip().splitlines()[-1])
@@ -103,7 +103,8 @@ def _judge(ctx, vecs, summ, tfile, tag):
                       "%s: observed %s (%s); the spec allows %s" % (
                           describe(v["inp"]), json.dumps(m["observed"]), json.dumps(m.get("raw", {}))[:300],
                           json.dumps(v["allowed"])),
-                      {"vector": v, "observed": m["observed"], "raw": m.get("raw"), "args": summ["env"].get("host_type")})
+                      {"vector": v, "observed": m["observed"], "raw": m.get("raw"), "args": summ["env"].get("host_type"),
+                       "seed": summ["env"].get("seed")})
     recs = vlib.read_ndjson(tfile)
     raws = {}
     for r in recs:
@@ -120,7 +121,8 @@ def _judge(ctx, vecs, summ, tfile, tag):
                       "TLC: %s is false on the recorded call: %s: observed %s (%s)" % (
                           pred or "C19_Holds", describe(rec["inp"]), json.dumps(rec["obs"]),
                           json.dumps(raws.get(rec["i"], {}))[:300]),
-                      {"vector": vecs[rec["i"]], "observed": rec["obs"], "raw": raws.get(rec["i"]), "predicate": pred})
+                      {"vector": vecs[rec["i"]], "observed": rec["obs"], "raw": raws.get(rec["i"]), "predicate": pred,
+                       "args": summ["env"].get("host_type"), "seed": summ["env"].get("seed")})
     flagged = {m["run"] for m in summ["first_mismatches"]}
     if summ["mismatches"] and not rejects:
         raise vlib.ToolError("driver flagged %d calls but TLC accepted all observations: oracle disagreement" % summ["mismatches"])
@@ -155,12 +157,20 @@ def run(ctx):
     if len(vecs) < 100:
         raise vlib.ToolError("TLC printed only %d vectors" % len(vecs))
 
-    passes = [("c19", [])] if ctx.quick else [("c19", ["--rounds", 6]), ("c19s", ["--host-type", "static", "--rounds", 6])]
+    # all vectors with String hosts (thorough: also &'static str hosts); then the TLS vectors again with other
+    # seeds: other payloads, and the other kind of server (tokio-rustls / tokio-openssl acceptor alternate by seed)
+    tls = [v for v in vecs if v["inp"]["svc"] == "tls"]
+    passes = [("c19", vecs, [], ctx.seed)]
+    if not ctx.quick:
+        passes = [("c19", vecs, ["--rounds", 6], ctx.seed), ("c19s", vecs, ["--host-type", "static", "--rounds", 6], ctx.seed)]
+    for k in range(1, 2 if ctx.quick else 8):
+        passes.append(("c19t%d" % k, tls, ["--rounds", 3 if ctx.quick else 8] +
+                       (["--host-type", "static"] if k % 3 == 2 else []), ctx.seed + k))
     total_steps = 0
     sample_runs = None
-    for tag, extra in passes:
-        summ, tfile = _drive(ctx, vecs, tag, extra)
-        runs, accepted, rejects, flagged = _judge(ctx, vecs, summ, tfile, tag)
+    for tag, pvecs, extra, seed in passes:
+        summ, tfile = _drive(ctx, pvecs, tag, extra, seed)
+        runs, accepted, rejects, flagged = _judge(ctx, pvecs, summ, tfile, tag)
         total_steps += summ["steps"]
         sample_runs = sample_runs or runs
         ctx.cov.setdefault("driver", []).append({k: summ[k] for k in (
@@ -207,7 +217,7 @@ def replay(ctx, path):
     rp = json.load(open(path))["replay"]
     vecs = [rp["vector"]]
     extra = ["--host-type", "static"] if rp.get("args") == "&'static str" else []
-    summ, tfile = _drive(ctx, vecs, "c19-replay", extra)
+    summ, tfile = _drive(ctx, vecs, "c19-replay", extra, rp.get("seed"))
     if summ["steps"] != 1:
         raise vlib.ToolError("the vector cannot be executed in this environment: %s" % json.dumps(summ["skipped"]))
     runs, accepted, rejects, flagged = _judge(ctx, vecs, summ, tfile, "c19-replay")
